@@ -179,6 +179,19 @@ func VerifC07Contextual(h *verifh.H) {
 	e, err := ctx.GetEntity(av.ID, nil, true)
 	h.Assert(err == nil, "lookup succeeds")
 	h.Assert(e == nil || (len(e.Properties) == 0 && len(e.References) == 0), "a contextual store created before the delete returns nothing of the deleted dataset :: got="+vRenderEntity(e))
+	// relationship queries through the same contextual store (what Query / PagedQuery of a
+	// transform registered before the delete run on): nothing of the deleted dataset either
+	for _, start := range []string{"ns0:e1", "ns0:e2", "ns0:e3"} {
+		for inv := 0; inv < 2; inv++ {
+			want := hs.g.related(start, "*", inv == 1, nil)
+			res, qerr := ctx.GetManyRelatedEntitiesBatch([]string{start}, "*", inv == 1, nil, 0, true)
+			if qerr != nil {
+				continue
+			}
+			got := vRelPairs(res.Relations)
+			h.Assert(vJoin(got) == vJoin(want), "a contextual store created before the delete returns no relationship of the deleted dataset :: start="+start+" inverse="+vB(inv == 1)+" got="+vJoin(got)+" want="+vJoin(want))
+		}
+	}
 	// the shared store itself filters at once
 	e2, err := hs.hub.Store.GetEntity(av.ID, nil, true)
 	h.Assert(err == nil && (e2 == nil || (len(e2.Properties) == 0 && len(e2.References) == 0)), "the store filters the deleted dataset at once")
